@@ -57,6 +57,8 @@ def program(rng):
              "sup_args": {s: rand_aexpr(rng) for s in sups}}
         if rng.random() < 0.5:
             c["own"].append((f"q{i}", "default", ("k", F(rng.randint(0, 9)))))       # field initialiser
+        if rng.random() < 0.4:
+            c["own"].append((f"z{i}", "free", None))       # no initialiser: a fresh real variable per instance, pinned by a constraint after creation
         classes.append(c)
     nh = rng.randint(0, 2)
     for i in range(nh):
@@ -88,7 +90,7 @@ def program(rng):
         if c["obj"]:
             body.append(f"  {c['obj']} d;")
         for (fn, kind, e) in c["own"]:
-            body.append(f"  real {fn};" if kind == "init" else f"  real {fn} = {aexpr_text(e)};")
+            body.append(f"  real {fn};" if kind in ("init", "free") else f"  real {fn} = {aexpr_text(e)};")
         is_h = c["name"].startswith("H")
         pars = (f"{holder_obj_type(c['name'])} p, " if is_h and holder_obj_type(c["name"]) else "") + "real a"
         il = []
@@ -106,13 +108,13 @@ def program(rng):
         lines.append(f"class {c['name']}" + (" : " + ", ".join(c["supers"]) if c["supers"] else "") + " {\n" + "\n".join(body) + "\n}")
     # ----- enums
     enums = {}
-    ne = rng.randint(0, 2)
-    pool = ["a", "b", "c", "d", "e", "f"]
+    ne = rng.randint(0, 3)
+    pool = ["a", "b", "c", "d", "e", "f", "g", "h", "k"]
     rest = pool[:]
     rng.shuffle(rest)
     for i in range(ne):
         own = [rest.pop() for _ in range(rng.randint(1, 3))]      # spellings are not shared between enums
-        inc = [f"E{j}" for j in range(i) if rng.random() < 0.6]
+        inc = [f"E{j}" for j in range(i) if rng.random() < (0.6 if j == i - 1 else 0.3)]       # chains E2 | E1, E1 | E0 are frequent: inclusion is transitive
         enums[f"E{i}"] = {"own": own, "inc": inc}
         lines.append(f"enum E{i} {{" + ", ".join(f'"{s}"' for s in own) + "}" + "".join(f" | {x}" for x in inc) + ";")
     # ----- statements: instances and variables interleaved
@@ -154,6 +156,12 @@ def program(rng):
             insts[name] = {"cls": c["name"], "fields": fields}
             order.append(name)
             stmts.append(f"{c['name']} {name} = new {c['name']}({(p + ', ') if p else ''}{num_text(a)});")
+            for anc in ancestors(c["name"]):
+                for (fn, kind, e) in cmap[anc]["own"]:
+                    if kind == "free" and fn not in fields:
+                        val = F(rng.randint(0, 12))
+                        fields[fn] = val
+                        stmts.append(f"{name}.{fn} == {num_text(val)};")
         else:
             tps = [c["name"] for c in classes if instances_of(c["name"])]
             tp = rng.choice(tps)
